@@ -360,6 +360,9 @@ ocp.set_der(v, a)
             if s in stage._offsets:
                 assert refine==1
                 e, offset = stage._offsets[s]
+                # Only states and controls are shifted below: B-spline signals and time would stay at the current node
+                if ca.depends_on(e, stage.t) or (len(self.signals)>0 and ca.depends_on(e, vvcat(self.signals.keys()))):
+                    raise Exception("next/prev/offset of an expression that depends on time or on a grid='bspline' signal is not supported by SplineMethod.")
 
                 J = ca.jacobian(expr,v)
                 deps = ca.sum1(J.sparsity()).T.row()
